@@ -560,7 +560,11 @@ func (a *App) handleCommand(cmd Command) {
 	case ConsumeEventCmd:
 		a.consumeEvent = true
 	case FocusWidgetCmd:
+		// FocusOut and FocusIn are events of their own: a handler that
+		// consumes one of them has not consumed the event being routed
+		consumed := a.consumeEvent
 		err := a.fh.focusWidget(a, cmd)
+		a.consumeEvent = consumed
 		if err != nil {
 			log.Error("focusWidget error: %s", err)
 			return
